@@ -94,7 +94,7 @@ Next ==
 
 Spec == Init /\ [][Next]_vars
 
-Report == PrintT(<<"REJECT", Funcs[f].fid, pc, MissingReads(Op)>>)
+Report == PrintT(<<"REJECT", Funcs[f].fid, pc, CHOOSE r \in MissingReads(Op) : TRUE>>)
 UsesSeeTheirValue == st # "stuck" \/ (~Strict /\ Report)
 
 (* spill cells, pushed registers and outgoing stack arguments never overlap a user stack area *)
